@@ -12,9 +12,11 @@
 //!        r = T:<digest> text message, valid UTF-8 (`text()` is Some) | t:<digest> text flag, `text()` is None
 //!          | B:<digest> binary | E:closed | E:read | E:opcode | E:write | E:handshake | E:send
 //! c11_nb <steps>
-//!     choreographed non-blocking receive: `w<hex>` client write (+ settle pause), `s<ms>` sleep, `f` client half-close,
-//!     `p` = one `recv_nonblocking()` call on the server side (a call that blocks inside a frame stays pending while
-//!     the following steps run and is joined before the next `p` / at the end).  After an error result no more polls.
+//!     choreographed non-blocking receive: `w<hex>` client write, `s<ms>` sleep, `f` client half-close,
+//!     `q<k>` = wait until k bytes are readable on the server side (no timing assumption about loopback delivery), then
+//!     start one `recv_nonblocking()` call on the server thread (`p` = the same without waiting); `j` = wait for the
+//!     result of the call in flight.  A call that blocks inside a frame stays in flight while the following `w` steps
+//!     feed it.  After an error result no more polls.
 //!     -> polls=<r;r;..> (N = nothing yet) out=<hex> eof=..
 //! c11_nbfree <poll sleep ms> <plan>
 //!     free-running: the server polls `recv_nonblocking` in a loop (sleeping after every `nothing yet`) while the client
@@ -41,8 +43,7 @@ use std::sync::mpsc::{channel, RecvTimeoutError};
 use std::sync::{Arc, OnceLock};
 use std::time::{Duration, Instant};
 
-const SETTLE_MS: u64 = 12; // after a client write in the choreographed mode: lets the bytes reach the server's socket
-const POLL_WAIT_MS: u64 = 30; // how long a poll may take before the choreography goes on without it
+const SETTLE_MS: u64 = 5; // after the client's half-close in the choreographed mode
 const HARD_MS: u64 = 10_000; // nothing in a case takes longer unless something hangs
 
 /// connected loopback pair: (server side, client side)
@@ -146,7 +147,8 @@ enum Item {
     Write(Vec<u8>),
     Pause(u64),
     Fin,
-    Poll,
+    Poll(usize),
+    Join,
 }
 
 fn parse_items(plan: &str) -> Vec<Item> {
@@ -157,7 +159,9 @@ fn parse_items(plan: &str) -> Vec<Item> {
         }
         match it.as_bytes()[0] {
             b'h' | b'w' => out.push(Item::Write(unhex(&it[1..]))),
-            b'p' if it.len() == 1 => out.push(Item::Poll),
+            b'p' if it.len() == 1 => out.push(Item::Poll(0)),
+            b'q' => out.push(Item::Poll(it[1..].parse().unwrap())),
+            b'j' => out.push(Item::Join),
             b'p' | b's' => out.push(Item::Pause(it[1..].parse().unwrap())),
             b'f' => out.push(Item::Fin),
             _ => panic!("harness: bad plan item"),
@@ -269,6 +273,7 @@ fn run_nb(steps: &str) -> String {
     let rd = reader(cli.try_clone().unwrap());
     let mut cli = cli;
     let mut polls: Vec<String> = Vec::new();
+    let mut peekbuf = vec![0u8; 4096];
     let mut pending = false;
     let mut dead = false;
     let mut hang = false;
@@ -292,14 +297,27 @@ fn run_nb(steps: &str) -> String {
         match it {
             Item::Write(b) => {
                 let _ = cli.write_all(b);
-                std::thread::sleep(Duration::from_millis(SETTLE_MS));
             }
             Item::Pause(ms) => std::thread::sleep(Duration::from_millis(*ms)),
             Item::Fin => {
                 let _ = cli.shutdown(Shutdown::Write);
                 std::thread::sleep(Duration::from_millis(SETTLE_MS));
             }
-            Item::Poll => {
+            Item::Join => {
+                if pending {
+                    match join(&mut polls, HARD_MS) {
+                        Some(e) => {
+                            pending = false;
+                            dead |= e;
+                        }
+                        None => {
+                            hang = true;
+                            break;
+                        }
+                    }
+                }
+            }
+            Item::Poll(k) => {
                 if pending {
                     match join(&mut polls, HARD_MS) {
                         Some(e) => {
@@ -315,23 +333,35 @@ fn run_nb(steps: &str) -> String {
                 if dead {
                     continue;
                 }
+                // no call is in flight: the shared file status flags can be toggled for a non-blocking peek
+                if *k > 0 {
+                    let want = (*k).min(peekbuf.len());
+                    let t0 = Instant::now();
+                    let _ = unblock.set_nonblocking(true);
+                    while t0.elapsed() < Duration::from_millis(3000) {
+                        match unblock.peek(&mut peekbuf) {
+                            Ok(n) if n >= want => break,
+                            _ => std::thread::sleep(Duration::from_micros(300)),
+                        }
+                    }
+                    let _ = unblock.set_nonblocking(false);
+                }
                 if ctx.send(true).is_err() {
                     polls.push("PANIC".to_string());
                     dead = true;
                     continue;
                 }
-                // the "starts now" mark, then the result (or not yet)
+                // the "starts now" mark
                 match rrx.recv_timeout(Duration::from_millis(HARD_MS)) {
-                    Ok(None) => {}
+                    Ok(None) => {
+                        pending = true;
+                        // let the call reach its non-blocking read before the client goes on writing
+                        std::thread::sleep(Duration::from_millis(2));
+                    }
                     _ => {
                         polls.push("PANIC".to_string());
                         dead = true;
-                        continue;
                     }
-                }
-                match join(&mut polls, POLL_WAIT_MS) {
-                    Some(e) => dead |= e,
-                    None => pending = true,
                 }
             }
         }
@@ -342,7 +372,15 @@ fn run_nb(steps: &str) -> String {
         }
     }
     if hang {
-        polls.push("HANG".to_string());
+        // diagnostics: how many bytes are waiting unread on the server side
+        let mut pk = vec![0u8; 1 << 20];
+        let _ = unblock.set_nonblocking(true);
+        let waiting = match unblock.peek(&mut pk) {
+            Ok(n) => n as i64,
+            Err(_) => -1,
+        };
+        let _ = unblock.set_nonblocking(false);
+        polls.push(format!("HANG(unread={})", waiting));
         let _ = unblock.shutdown(Shutdown::Both);
     }
     let _ = ctx.send(false);
@@ -486,7 +524,7 @@ fn run_hs(request: &[u8], post: &[u8]) -> String {
     let mut eof = false;
     let t0 = Instant::now();
     s.set_read_timeout(Some(Duration::from_millis(100))).unwrap();
-    while find(&got, b"\r\n\r\n").is_none() && t0.elapsed() < Duration::from_millis(1500) {
+    while find(&got, b"\r\n\r\n").is_none() && t0.elapsed() < Duration::from_millis(8000) {
         match s.read(&mut buf) {
             Ok(0) => {
                 eof = true;
